@@ -5,6 +5,7 @@ import (
 	"go.uber.org/zap/verif/props/c05"
 	"go.uber.org/zap/verif/props/c06"
 	"go.uber.org/zap/verif/props/c07"
+	"go.uber.org/zap/verif/props/c09"
 	"go.uber.org/zap/verif/props/c10"
 	"go.uber.org/zap/verif/props/c11"
 	"go.uber.org/zap/verif/props/c12"
@@ -36,5 +37,6 @@ func init() {
 	register("C11", "exploration", c11.Run, c11.Child)
 	register("C12", "fault_enumeration", c12.Run, c12.Child)
 	register("C06", "exploration", c06.Run, c06.Child)
+	register("C09", "exploration", c09.Run, c09.Child)
 	register("C02", "exploration", encjson.Run02, nil)
 }
